@@ -679,6 +679,7 @@ func (r *Reconciler) Reconcile(ctx context.Context, req reconcile.Request) (reco
 	}
 
 	var rc io.ReadCloser
+	var pipeW *io.PipeWriter
 	cacheWrite := make(chan error)
 
 	if r.cache.Has(id) {
@@ -736,8 +737,11 @@ func (r *Reconciler) Reconcile(ctx context.Context, req reconcile.Request) (reco
 		}
 
 		// Package is not in cache, so we write it to the cache while parsing.
-		pipeR, pipeW := io.Pipe()
-		rc = xpkg.TeeReadCloser(imgrc, pipeW)
+		// The parser closes rc when it is done, which must not end the cached
+		// copy: we close the pipe below, once we know whether parsing failed.
+		var pipeR *io.PipeReader
+		pipeR, pipeW = io.Pipe()
+		rc = xpkg.TeeReadCloser(imgrc, nopWriteCloser{pipeW})
 		go func() {
 			defer pipeR.Close() //nolint:errcheck // Not much we can do if this fails.
 			if err := r.cache.Store(pr.GetName(), pipeR); err != nil {
@@ -757,6 +761,12 @@ func (r *Reconciler) Reconcile(ctx context.Context, req reconcile.Request) (reco
 		Reader: io.LimitReader(rc, maxPackageSize),
 		Closer: rc,
 	})
+	if pipeW != nil {
+		// If we could not read or parse the whole package the cache holds only
+		// part of it. Fail the cache write so that the partial contents are
+		// removed below, rather than used by subsequent reconciles.
+		_ = pipeW.CloseWithError(err)
+	}
 	// Wait until we finish writing to cache. Parser closes the reader.
 	if err := <-cacheWrite; err != nil {
 		// If we failed to cache we want to cleanup, but we don't abort unless
@@ -930,6 +940,13 @@ func (r *Reconciler) Reconcile(ctx context.Context, req reconcile.Request) (reco
 	pr.SetConditions(v1.Healthy())
 	return reconcile.Result{Requeue: false}, errors.Wrap(r.client.Status().Update(ctx, pr), errUpdateStatus)
 }
+
+// nopWriteCloser is a WriteCloser whose Close is a no-op.
+type nopWriteCloser struct {
+	io.Writer
+}
+
+func (nopWriteCloser) Close() error { return nil }
 
 func (r *Reconciler) deactivateRevision(ctx context.Context, pr v1.PackageRevision, runtimeManifestBuilder ManifestBuilder) error {
 	// Remove self from the lock if we are present.
